@@ -259,9 +259,34 @@ static void c17r_run(void)
     camera_stop(CAM);
 }
 
+// c17t: software-triggered camera re-configured while its streamer is PARKED in the trigger wait (never while it renders: that race
+// is scenario c17r's known finding), then triggered again.  The client waits until the first frame has been delivered and the
+// streamer thread is asleep on its condition variable before it calls set.
+static void c17t_setup(void) { cam_setup_common(); }
+static void c17t_run(void)
+{
+    g_run = 0; g_start_ns[0] = vs_now_ns();
+    g_streamer_tid[0] = vs_thread_count();
+    if (camera_start(CAM) != Device_Ok) vs_fail("harness:camera-start", "camera_start failed");
+    int tc = vs_spawn(c17r_caller, 0, "caller");
+    g_triggers[0]++; camera_execute_trigger(CAM);
+    int parked = 0;
+    for (int k = 0; k < 40 && !parked; ++k) { parked = RUNS[0].nframes >= 1 && vs_blocked_on_cond(g_streamer_tid[0]); if (!parked) vs_sleep_ms(1); }
+    if (parked) {
+        vs_event(24);
+        apply_props((uint32_t)vs_param("w2", 4), (uint32_t)vs_param("h2", 4), (int)vs_param("type2", SampleType_u8), (int)vs_param("binning2", 1));
+        g_triggers[0]++; camera_execute_trigger(CAM);
+        vs_sleep_ms(P_EXPOSURE_MS + 1);
+    }
+    camera_stop(CAM);
+    vs_join(tc);
+    camera_stop(CAM);
+}
+
 struct vs_scenario vs_scenarios[] = {
     { "c18", "simulated camera: caller get_frame x frames, controller ctl=[tsw]*, trigger=0|1, restart", c18_setup, c18_run, c18_check },
     { "c17r", "simulated camera re-configured (w2,h2,type2,binning2) while streaming", c17r_setup, c17r_run, 0 },
+    { "c17t", "software-triggered simulated camera re-configured while its streamer is parked in the trigger wait", c17t_setup, c17t_run, 0 },
     { 0 },
 };
 
